@@ -133,6 +133,7 @@ impl GenerationCache {
             return_type: &'a str,
             is_async: bool,
             channels: Vec<ChannelHashData<'a>>,
+            serde_rename_all: Option<String>,
         }
 
         #[derive(Serialize)]
@@ -140,6 +141,7 @@ impl GenerationCache {
             name: &'a str,
             rust_type: &'a str,
             is_optional: bool,
+            serde_rename: Option<&'a str>,
         }
 
         #[derive(Serialize)]
@@ -160,6 +162,7 @@ impl GenerationCache {
                         name: &p.name,
                         rust_type: &p.rust_type,
                         is_optional: p.is_optional,
+                        serde_rename: p.serde_rename.as_deref(),
                     })
                     .collect(),
                 return_type: &cmd.return_type,
@@ -172,6 +175,7 @@ impl GenerationCache {
                         message_type: &c.message_type,
                     })
                     .collect(),
+                serde_rename_all: cmd.serde_rename_all.map(|r| format!("{:?}", r)),
             })
             .collect();
 
@@ -187,6 +191,7 @@ impl GenerationCache {
             file_path: &'a str,
             is_enum: bool,
             fields: Vec<FieldHashData<'a>>,
+            serde_rename_all: Option<String>,
         }
 
         #[derive(Serialize)]
@@ -195,6 +200,8 @@ impl GenerationCache {
             rust_type: &'a str,
             is_optional: bool,
             is_public: bool,
+            serde_rename: Option<&'a str>,
+            validator_attributes: Option<&'a crate::models::ValidatorAttributes>,
         }
 
         // Sort by name for deterministic ordering
@@ -215,8 +222,11 @@ impl GenerationCache {
                         rust_type: &f.rust_type,
                         is_optional: f.is_optional,
                         is_public: f.is_public,
+                        serde_rename: f.serde_rename.as_deref(),
+                        validator_attributes: f.validator_attributes.as_ref(),
                     })
                     .collect(),
+                serde_rename_all: s.serde_rename_all.map(|r| format!("{:?}", r)),
             })
             .collect();
 
